@@ -36,7 +36,7 @@ Section Sound.
     if fi_skip f then default_value interp_fn cdef f ft
     else if fi_flatten f then
       match ft with
-      | TStructR c' fs' => expected ft (dummy_list unclaimed)
+      | TStructR _ _ | TEnumR _ _ _ => expected ft (dummy_list unclaimed)
       | _ => None
       end
     else
@@ -92,6 +92,17 @@ Section Sound.
       | Some cd => fields_value all_fs fs items cd unclaimed
       | None => None
       end.
+
+  (** what a [flatten] member may be: a derived struct or enum (both take a list) *)
+  Definition flat_target (t : ty) : bool :=
+    match t with TStructR _ _ | TEnumR _ _ _ => true | _ => false end.
+
+  Lemma flat_target_here {A} t (X : option A) :
+    flat_target t = true -> match t with TStructR _ _ | TEnumR _ _ _ => X | _ => None end = X.
+  Proof. destruct t; try discriminate; reflexivity. Qed.
+
+  Lemma flat_target_meta t : flat_target t = true -> o_meta (impl t) = None.
+  Proof. destruct t; try discriminate; reflexivity. Qed.
 
   Lemma expected_struct c fs i p ti items :
     expected (TStructR c fs) (NList i p ti items) =
@@ -494,6 +505,13 @@ Section Sound.
         destruct (from_list _ l); cbn [map_err]; congruence.
       Qed.
 
+      Lemma enum_from_meta_list c' w' vs' l v :
+        from_meta (impl (TEnumR c' w' vs')) (dummy_list l) = Ok v -> from_list (impl (TEnumR c' w' vs')) l = Ok v.
+      Proof.
+        unfold from_meta, dummy_list. cbn [impl_of o_meta default_from_meta].
+        destruct (from_list _ l); cbn [map_err]; congruence.
+      Qed.
+
       Theorem level_sound cdef_of locate :
         cdef_of tt = Ok cd ->
         parse_fields sugg sim interp_with interp_fn fields convs auk (state0 fields) items cdef_of locate = Ok kvs.
@@ -519,14 +537,16 @@ Section Sound.
             assert (HFl : has_flatten fields = true) by (unfold has_flatten; apply existsb_exists; exists g; split; [eapply nth_error_In; exact Ng|exact Fg]).
             destruct (FL1 g (nth_error_In _ _ Ng) Fg) as [Skg Mug].
             pose proof Hv as Hv'. unfold here_value in Hv'. rewrite Skg, Fg in Hv'.
-            destruct gt as [| | | |c' fs'| | |]; try discriminate.
-            pose proof (IH_nth i g _ Hg (dummy_list unclaimed) vg eq_refl Hv') as FM. apply struct_from_meta_list in FM.
+            assert (FM : from_list (impl gt) unclaimed = Ok vg).
+            { destruct gt as [| | | |c' fs'| | |c' w' vs']; try discriminate;
+                pose proof (IH_nth i g _ Hg (dummy_list unclaimed) vg eq_refl Hv') as FM;
+                [now apply struct_from_meta_list in FM|now apply enum_from_meta_list in FM]. }
             rewrite Fl, (flat_is_unclaimed HFl), (conv_of_nth i g _ Hg), FM.
             assert (Li : (i < List.length (ps_slots st1))%nat) by (rewrite Len1; apply nth_error_Some; congruence).
             eexists. split; [destruct (names fields); reflexivity|]. cbn [ps_errs ps_slots]. split; [exact El|]. split.
             { unfold set_slot. rewrite app_length, firstn_length. cbn [List.length]. rewrite skipn_length. lia. }
             intros j f t v Hj Hh. destruct (Nat.eq_dec j i) as [->|Ne].
-            + assert (f = g /\ t = TStructR c' fs') by (split; congruence). destruct H as [-> ->].
+            + assert (f = g /\ t = gt) by (split; congruence). destruct H as [-> ->].
               assert (v = vg) by congruence. subst v.
               exists (SSingle true (Some vg)). split; [now apply nth_error_set_slot_same|].
               unfold check_one. destruct (needs_check g); cbn [fst snd init_field]; auto.
